@@ -139,7 +139,8 @@ def poll_update(ts, h, numbers):
     from deepproto.proto.poll.v1.poll_pb2 import PollResponse, ResponseType
     from deepproto.proto.tracepoint.v1.tracepoint_pb2 import TracePointConfig
     return PollResponse(ts_nanos=ts, current_hash=str(h), response_type=ResponseType.UPDATE,
-                        response=[TracePointConfig(ID=str(n), path="polled.py", line_number=n, args={}) for n in numbers])
+                        # several service tracepoints share a line (they are merged into one trigger per location)
+                        response=[TracePointConfig(ID=str(n), path="polled.py", line_number=10 + n % 3, args={}) for n in numbers])
 
 
 def poll_no_change(ts):
